@@ -217,6 +217,10 @@ def allowed(method, route, caller):
     return caller in ('admin', 'service')
 
 
+def i_ver_op(ver, m, route):
+    return int(stable_hash([ver, m, route]), 16)
+
+
 def authorised_caller(route):
     return 'service' if route == '/reshaper' else 'admin'
 
@@ -297,6 +301,26 @@ def run_worker(ctx):
         for (m, route, path, body, missing) in OPS:
             vbody = c14.plausible_body(route, m, vnum) \
                 if m in ('PUT', 'POST') else None
+            if route == '/allocations/{consumer_uuid}' and m == 'PUT':
+                vbody = c14.alloc_body(vnum, {P1: {'VCPU': 2}})
+            if route == '/resource_classes/{name}' and m == 'PUT' \
+                    and vnum < 7:
+                # below 1.7 this is a rename: it needs an existing class
+                path = '/resource_classes/CUSTOM_PV_T2'
+            if (i_ver_op(ver, m, route)) % ctx.nworkers == ctx.idx:
+                # is the cell meaningful?  the authorised caller should get
+                # 2xx wherever the operation exists at this version
+                svc.restore(snap)
+                ra = send(svc, None, m, path, vbody,
+                          authorised_caller(route), ver)
+                stats.evaluations += 1
+                stats.count('sweep: authorised caller -> %s' % (
+                    '2xx' if ra.ok else ra.status))
+                if not ra.ok and ra.status not in (404, 405) and \
+                        len(stats.notes) < 40:
+                    stats.notes.append(
+                        'sweep request not 2xx for authorised caller: %s %s '
+                        '@%s -> %d' % (m, route, ver, ra.status))
             for caller in SWEEP_CALLERS:
                 vcells.append((m, route, path, vbody, caller, 'existing',
                                ver))
